@@ -182,7 +182,8 @@ func (l *Lexer) nextInsideToken() token.Token {
 				break
 			}
 		}
-		tok = l.nextInsideToken()
+		// the recursive call has consumed the next token completely
+		return l.nextInsideToken()
 	case '[':
 		tok = l.newToken(token.LBRACKET)
 	case ']':
